@@ -372,8 +372,13 @@ class Gen:
                 ps, sh1 = self.shape(s[0], False)
                 pd, sh2 = self.shape(dloc, False)
                 sc = ""
-                if r.chance(1, 3) and s[1][1]:
-                    sc = " s" + ",".join(str(r.choice([1, 2, 3, 100, 0])) for _ in range(r.range(1, 4)))
+                if r.chance(1, 2) and s[1][1]:
+                    # per-call transferred counts of copy_file_range (environment): a few short steps, or the whole file in short steps
+                    if r.chance(1, 3):
+                        step = r.choice([1, 2, 3, 7])
+                        sc = " s" + ",".join(str(step) for _ in range(len(s[1][1]) // step + 2))
+                    else:
+                        sc = " s" + ",".join(str(r.choice([1, 2, 3, 100, 0])) for _ in range(r.range(1, 4)))
                 line = ("copy %s %s%s" % (H(ps), H(pd), sc), "copy", dloc, s[0], sh2)
                 prior = lookup(cur, dloc)
                 line = line + (("absent" if prior is None else ("dir" if prior[0] == "d" else
@@ -763,6 +768,12 @@ def directed_lines(g):
         add("mkdirall %s" % H(b"u%d/v" % n + b"/" * (n - len(b"u%d/v" % n))), "mkdirall", [b"u%d" % n, b"v"])
     add("copy %s %s s4" % (H(b"big"), H(b"bigcopy")), "copy", [b"bigcopy"], (b"big",), "absent")
     add("copy %s %s s100,1,1,300" % (H(b"big"), H(b"d")), "copy", [b"d"], (b"big",), "shorter")
+    # the whole 768-byte source in steps of 5 bytes (154 copy_file_range calls), in steps of 1 then the rest, and a step
+    # that is exactly the remaining length (not a short count at all)
+    add("copy %s %s s%s" % (H(b"big"), H(b"big5"), ",".join(["5"] * 160)), "copy", [b"big5"], (b"big",), "absent")
+    add("copy %s %s s1,1,1,0" % (H(b"big"), H(b"big5")), "copy", [b"big5"], (b"big",), "equal")
+    add("copy %s %s s767,1" % (H(b"big"), H(b"s")), "copy", [b"s"], (b"big",), "shorter")
+    add("copy %s %s s768" % (H(b"big"), H(b"big5")), "copy", [b"big5"], (b"big",), "equal")
     add("write %s %s s1,1,2" % (H(b"d"), H(b"hello world")), "write", [b"d"], b"hello world")
     add("rmall %s" % H(b"existing//"), "rmall", [b"existing"])
     add("readdir %s" % H(sb), "readdir", [])
